@@ -738,4 +738,7 @@ def check(ctx):
            'the generator\'s own ray walk (pins, moves of pinned sliders) stops at the nearest blocker in every direction and agrees with the '
            'table builder (C11.R3)%s' % ('' if not bad else ' — refuted: ' + '; '.join('%s at %s: %s' % (r[0], r[4], r[3][:160]) for r in bad)),
            site=bad[0][4] if bad else 'engine/movegen.cpp')
+    # ---- M8 value-level rules -------------------------------------------------------------------------------------------------
+    import props.C01sem as sem
+    sem.check(ctx, p, gens, emissions, loop_source, dirs)
     ctx.note('not decided: that the generated set equals the FIDE-legal set for every position; absence of duplicates')
